@@ -267,6 +267,32 @@ func (p *Prog) buildEdges(funcs []*ssa.Function) (map[*ssa.Function][]*CallEdge,
 	addrTaken := map[*ssa.Function]bool{}
 	edges := map[*ssa.Function][]*CallEdge{}
 	cg := p.CG()
+	// closures handed to a function as an argument: where that function CALLS the parameter, the
+	// closure runs with whatever the function holds at that point (a Range that calls its
+	// callback under its own lock), not only with what the caller held when it passed it
+	closureArgs := map[*ssa.Function]map[int][]*ssa.Function{}
+	for _, f := range funcs {
+		for _, b := range f.Blocks {
+			for _, in := range b.Instrs {
+				ci, ok := in.(ssa.CallInstruction)
+				if !ok || ci.Common().IsInvoke() {
+					continue
+				}
+				sc := ci.Common().StaticCallee()
+				if sc == nil || !inSet[sc] {
+					continue
+				}
+				for i, a := range ci.Common().Args {
+					if mc, ok := a.(*ssa.MakeClosure); ok {
+						if closureArgs[sc] == nil {
+							closureArgs[sc] = map[int][]*ssa.Function{}
+						}
+						closureArgs[sc][i] = append(closureArgs[sc][i], mc.Fn.(*ssa.Function))
+					}
+				}
+			}
+		}
+	}
 	for _, f := range funcs {
 		node := cg.Nodes[f]
 		for _, b := range f.Blocks {
@@ -318,6 +344,18 @@ func (p *Prog) buildEdges(funcs []*ssa.Function) (map[*ssa.Function][]*CallEdge,
 				if sc := cc.StaticCallee(); sc != nil {
 					if inSet[sc] {
 						edges[f] = append(edges[f], &CallEdge{Caller: f, Site: in, Callee: sc, Kind: kind})
+					}
+				}
+				// a call of one of f's own function-typed parameters: the closures passed for it
+				if prm, isPrm := cc.Value.(*ssa.Parameter); isPrm {
+					for i, fp := range f.Params {
+						if fp == prm {
+							for _, cf := range closureArgs[f][i] {
+								if inSet[cf] {
+									edges[f] = append(edges[f], &CallEdge{Caller: f, Site: in, Callee: cf, Kind: kind})
+								}
+							}
+						}
 					}
 				}
 				// closures passed as arguments (or called directly, handled as static above when Value is MakeClosure)
